@@ -4,8 +4,8 @@ import json
 
 CLAIMED = {
     "C01": dict(
-        technique="Coq: verified local checker for an untrusted nil-safety certificate over control-flow graphs of the whole parser regenerated from source; C12 totality for the lexer; Panic-free executable model of the SELECT core; search under recover",
-        text="C01: lexer — C12_lexer_total covers every byte string; parser, whole package — C01_nil_no_crash: in a nondeterministic semantics where every producer not certified never-nil may return nil, no run of the graphs regenerated from /repo/parser reaches a dereference of nil outside 5 reviewed sites (the certificate is untrusted and checked locally in the kernel), every index expression is guarded or reviewed (7), no unchecked type assertion, no explicit panic, no non-constant division; SELECT core — the executable model with explicit Panic outcomes never reaches one for any token list. Re-introducing any of the fixed nil dereferences, an unguarded index or assertion breaks an obligation and names the site. Search: corpus, mutants, short token sequences, token prefixes, nesting probes under recover.",
+        technique="Coq: verified local checker for an untrusted nil-safety certificate over control-flow graphs of the whole parser regenerated from source; totality of the lexer model (C01_lexer) tied to lexer.go by the extraction correspondence re-run in this check; Panic-free executable model of the SELECT core; search under recover",
+        text="C01: lexer — C01_lexer_returns_normally: the model of the whole of lexer.go returns a token list for every byte string (no partial operation, no fuel exhaustion), compared with lexer.Tokenize on every run (a Go panic is reported with its input); parser, whole package — C01_nil_no_crash: in a nondeterministic semantics where every producer not certified never-nil may return nil, no run of the graphs regenerated from /repo/parser reaches a dereference of nil outside 5 reviewed sites (the certificate is untrusted and checked locally in the kernel), every index expression is guarded or reviewed (7), no unchecked type assertion, no explicit panic, no non-constant division; SELECT core — the executable model with explicit Panic outcomes never reaches one for any token list. Re-introducing any of the fixed nil dereferences, an unguarded index or assertion breaks an obligation and names the site. Search: corpus, mutants, short token sequences, token prefixes, nesting probes under recover.",
         design_ref="DESIGN.md §4 C01",
         note="Trusted: nilgen's translation rules (over-approximation of nil-relevant data flow); 13 reviewed sites weaken the theorem (listed in checks/c01_reviewed_sites.json and the evidence); stack exhaustion (fatal error) is outside the model."),
     "C03": dict(
@@ -14,15 +14,15 @@ CLAIMED = {
         design_ref="DESIGN.md §4 C03",
         note="Trusted: nilgen translation; printers outside the SELECT-core model are covered by the search only (partial)."),
     "C02": dict(
-        technique="Coq: verified local checker for an untrusted potential certificate over the control-flow skeleton of the whole parser, regenerated from source on every run; obligation discharged by vm_compute",
-        text="Theorem C02_parser_steps_linear: every run of the control-flow skeleton of the whole parser package (168 functions, regenerated from /repo/parser by a Go translator on every run), for every token list and every resolution of its data-dependent branches, halts within E_main + B*tokens steps. Proved once (Skel/SkelSound.v) for any skeleton accepted by the boolean checker; the per-run obligation check_prog skeleton = true is computed in the kernel, so deleting a break arm, removing a progress guard or adding a non-consuming loop breaks the build of Properties/C02.v and names the loop. The real step counter (verif hook) is compared with the proved bound on corpus, mutants, exhaustive short token sequences and nesting probes.",
+        technique="Coq: verified local checker for an untrusted potential certificate over the control-flow skeleton of the whole parser, regenerated from source on every run; obligation discharged by vm_compute; lexer premise (reaches EOF, at most one token per byte) by the totality theorem of the lexer model + extraction correspondence",
+        text="C02_lexer_reaches_eof_in_linear_tokens: for every byte string the lexer model returns at most len+1 tokens ending in a sticky EOF (tied to lexer.go by the correspondence run; a lexer that never reaches EOF is reported with its input). Theorem C02_parser_steps_linear: every run of the control-flow skeleton of the whole parser package (168 functions, regenerated from /repo/parser by a Go translator on every run), for every token list and every resolution of its data-dependent branches, halts within E_main + B*tokens steps. Proved once (Skel/SkelSound.v) for any skeleton accepted by the boolean checker; the per-run obligation check_prog skeleton = true is computed in the kernel, so deleting a break arm, removing a progress guard or adding a non-consuming loop breaks the build of Properties/C02.v and names the loop. The real step counter (verif hook) is compared with the proved bound on corpus, mutants, exhaustive short token sequences and nesting probes.",
         design_ref="DESIGN.md §4 C02",
         note="Trusted: Coq kernel + vm_compute; the translator's over-approximation argument (the certificate itself is untrusted); sticky EOF of the lexer (C12). Memory bound argued, not proved."),
     "C04": dict(
-        technique="Coq: verified decision procedure for EXPLAIN tree well-formedness (sound+complete) + proof of count = emitted children on a model of the SELECT printers; extraction-based correspondence and oracle run",
+        technique="Coq: verified decision procedure for EXPLAIN tree well-formedness (sound+complete) + proofs of count = emitted children on models of the SELECT printers and of the DDL printers (Column, Index, CreateQuery with its Columns/Storage sub-tallies, AlterCommand, AlterQuery, projections, statistics); extraction-based correspondence on ASTs built directly and oracle run on corpus + grammar statements",
         text="C04_tree: check_text accepts exactly the texts that are one rooted tree in EXPLAIN AST layout with correct (children N), no Go artefacts and ClickHouse node kinds (sound and complete w.r.t. rendering of rose trees). C04_select: for the SelectQuery, SelectWithUnionQuery (every union tail), inherited-WITH and intersect printers — transcribed with the count code and the emit code kept separate as in Go — the header count equals the number of emitted children for every field combination (iff the parser-established LIMIT BY invariant for SelectQuery), hence the output is a tree. Tied by Go-vs-extracted-model comparison on ASTs built directly (exhaustive 2^16/2^13 field combinations) and by running the extracted verified checker on the real EXPLAIN of every corpus statement.",
         design_ref="DESIGN.md §4 C04",
-        note="Partial: DDL/ALTER/expression/table printers are covered only by the verified oracle applied to real output (search), not by a model. Trusted: hand-written printer model (validated by correspondence), extraction, node-kind generator."),
+        note="C04_ddl: for Column/Index/projection/Columns-definition/Storage-definition/dictionary/AlterQuery the header count equals the emitted children unconditionally; for AlterCommand and CreateQuery it is an equivalence with an explicit condition (inv_alter_count / inv_create) that excludes only field combinations the parser cannot produce or accepts only for invalid ClickHouse. Partial: expression/table/dictionary-attribute printers and the remaining statement printers are covered only by the verified oracle applied to real output (search), not by a model. Trusted: hand-written printer model (validated by correspondence), extraction, node-kind generator."),
     "C05": dict(
         technique="Coq proofs on the lexer model (separator invisibility, follow-independence, keyword case, position blindness) + abstract-machine indistinguishability theorem instantiated by a generated inventory of position/raw-value reads; metamorphic re-layout run",
         text="C05: over the lexer model, replacing/inserting/removing separators (all whitespace runes, --/# comments, nested block comments) at a token boundary leaves the comment-free token kinds and values unchanged, keyword case never changes a token kind, and the lexer is blind to positions; over parser and printer, the inventory regenerated from /repo shows positions are only copied into nodes, printed in error messages, compared in progress guards or used for the spacing detection inside ::-operand literals (the stated exception), and no raw token value is compared case-sensitively with a keyword-like constant — so by the abstract-machine theorem sig-equal token lists are indistinguishable; semicolon clauses by the driver theorems. Every corpus statement is re-laid-out K times on the implementation and EXPLAIN compared.",
@@ -74,7 +74,7 @@ CLAIMED = {
         design_ref="DESIGN.md §4 C14",
         note="Trusted: transcription of bufio (validated every run); readers returning (0,nil) 100 times in a row are outside the property."),
     "C15": dict(
-        technique="Coq invariant proof on the bufio + error-tracking reader model (all scripts, all operation sequences); fault-injection harness",
+        technique="Coq invariant proof on the bufio + error-tracking reader model (all scripts, all operation sequences) + totality of the lexer over every scripted (failing) reader by a measure argument (no fuel hypothesis left); fault-injection harness over readers of several dynamic types",
         text="C15: for every script of reads (errors anywhere, transient or persistent, with or without data) and every sequence of Peek/ReadRune operations, the error-tracking wrapper holds the first non-EOF error any Read returned (monotone); ParseStatements model returns ReadErr when it is set. Tied by the real bufio + wrapper vs extracted model on scripts with error chunks, and Parse over readers failing at every offset with several error kinds (errors.Is must hold).",
         design_ref="DESIGN.md §4 C15",
         note="Trusted: bufio transcription; 'returned by the reader' = a Read call made by the parse returned it."),
